@@ -43,7 +43,7 @@ def gen_cases(ctx):
     for i in range(ctx.share(ctx.scale(16, 400))):
         rng = ctx.rng(2, i)
         yield {"kind": "law", "seed": int(rng.integers(1 << 31)), "M": int(rng.choice([2, 3, 10, 50, 300])),
-               "vol": "under_normalised" if i % 3 == 2 else str(rng.choice(["unique_dirichlet", "unique_sharp", "zeros", "dominant"])),
+               "vol": "under_normalised" if i % 3 == 2 else str(rng.choice(["unique_dirichlet", "unique_sharp", "zeros", "zeros", "dominant"])),
                "n_samples": int(ctx.scale(200000, 1000000)), "rs": int(rng.integers(1 << 31))}
     if ctx.shard == 0:
         yield from malformed_cases()
@@ -199,14 +199,26 @@ def check_case(ctx, case):
         return
     if kind == "law":
         M, ns = case["M"], case["n_samples"]
-        O, F = make_stack(rng, 1, M, case["vol"])
+        # stacks of 1-3 snapshots: a grain may be empty in one snapshot and hold volume in another
+        Ns = 1 + int(case["seed"]) % 3
+        if case["vol"] == "zeros":
+            Ns = 2 + int(case["seed"]) % 2   # zero pattern differs between snapshots
+        O, F = make_stack(rng, Ns, M, case["vol"])
         st["unique"] = case["vol"] in ("unique_dirichlet", "unique_sharp", "dominant")
         ctx.case(case, nontrivial=True)
         try:
-            oo, ff = S.resample_orientations(O, F, n_samples=ns, seed=case["rs"])
+            oo_all, ff_all = S.resample_orientations(O, F, n_samples=ns, seed=case["rs"])
         except Exception as e:
             ctx.check("law:call_returns", False, case, key=f"raises/{type(e).__name__}", exc=str(e)[:150])
             return
+        ctx.cls(f"law_snapshots={Ns}")
+        for snap in range(Ns):
+            _law_one(ctx, case, st, O[snap:snap + 1], F[snap:snap + 1], np.asarray(oo_all)[snap:snap + 1], np.asarray(ff_all)[snap:snap + 1], ns, M, snap)
+        return
+
+
+def _law_one(ctx, case, st, O, F, oo, ff, ns, M, snap):
+    if True:
         f = F[0] / F[0].sum()
         # identify drawn grain by orientation (unique) -> counts
         keyO = {O[0][j].tobytes(): j for j in range(M)}
@@ -241,7 +253,7 @@ def check_case(ctx, case):
             ctx.minimum("law:min_chi2_p", p)
             ctx.check("law:chi_square", p > 1e-12, case, stat=stat, dof=dof, p=p)
         if len(ctx.samples) < 4:
-            ctx.sample(case, counts_head=counts[:5].tolist(), expected_head=(ns * f[:5]).round(1).tolist())
+            ctx.sample(case, snapshot=snap, counts_head=counts[:5].tolist(), expected_head=(ns * f[:5]).round(1).tolist())
 
 
 def run(ctx):
